@@ -29,25 +29,52 @@ type Solver struct {
 	maxQ       time.Duration
 	lastPushed bool
 	log        *strings.Builder // full transcript of the current path (for --dump-queries and cross-checks)
+	base       strings.Builder  // declarations, definitions and path constraints of the current path (no push/pop segments)
+	nFallback  int
+	fbModel    map[string]uint64
 }
 
-var solverCmd = []string{"z3", "-in", "-t:30000"}
+var solverCmd = []string{"z3", "-in", "-t:10000"}
+
+// second solver, asked when the first one gives up: cvc5 with the integer
+// encoding of bit-vector arithmetic, which decides mul/div/rem equivalences
+// that bit-blasting does not finish (one process per query; rare)
+var fallbackCmd = []string{"cvc5", "--solve-bv-as-int=sum", "--tlimit=20000", "--produce-models"}
 var dumpQueries *os.File
 var dumpMu sync.Mutex
 
-func NewSolver() *Solver {
+func (s *Solver) start() {
 	cmd := exec.Command(solverCmd[0], solverCmd[1:]...)
 	in, _ := cmd.StdinPipe()
 	out, _ := cmd.StdoutPipe()
 	if err := cmd.Start(); err != nil {
 		panic(err)
 	}
-	s := &Solver{cmd: cmd, in: in, out: bufio.NewReaderSize(out, 1<<16)}
+	s.cmd, s.in, s.out = cmd, in, bufio.NewReaderSize(out, 1<<16)
+}
+
+func NewSolver() *Solver {
+	s := &Solver{}
+	s.start()
 	if dumpQueries != nil {
 		s.log = &strings.Builder{}
 	}
 	s.Reset()
 	return s
+}
+
+// hard limit per query: z3's soft timeout (-t) is not honoured in every phase
+// (e.g. preprocessing of division by constants); a solver that does not answer
+// is killed and restarted, the answer is "unknown"
+var hardTimeout = 25 * time.Second
+
+func (s *Solver) restart() {
+	s.cmd.Process.Kill()
+	s.in.Close()
+	s.cmd.Wait()
+	s.start()
+	// re-establish the permanent part of the current path
+	io.WriteString(s.in, s.base.String())
 }
 
 func (s *Solver) Close() { s.in.Close(); s.cmd.Wait() }
@@ -61,6 +88,7 @@ func (s *Solver) Reset() {
 		s.log.Reset()
 	}
 	s.buf.Reset()
+	s.base.Reset()
 	s.buf.WriteString("(reset)\n")
 	s.ctx = &emitCtx{names: map[*Term]string{}, out: &s.buf}
 	s.lastPushed = false
@@ -75,6 +103,15 @@ func (s *Solver) flush() {
 	if s.log != nil {
 		s.log.WriteString(s.buf.String())
 	}
+	// keep the permanent part of the transcript (everything before a "(push)")
+	t := s.buf.String()
+	if i := strings.Index(t, "(push)\n"); i >= 0 {
+		t = t[:i]
+	}
+	t = strings.ReplaceAll(t, "(pop)\n", "")
+	t = strings.ReplaceAll(t, "(reset)\n", "")
+	t = strings.ReplaceAll(t, "(check-sat)\n", "")
+	s.base.WriteString(t)
 	io.WriteString(s.in, s.buf.String())
 	s.buf.Reset()
 }
@@ -89,9 +126,20 @@ func (s *Solver) Check(extra *Term) string {
 		s.buf.WriteString("(check-sat)\n")
 	}
 	s.flush()
+	killed := false
+	timer := time.AfterFunc(hardTimeout, func() { killed = true; s.cmd.Process.Kill() })
 	line, err := s.out.ReadString('\n')
+	timer.Stop()
 	if err != nil {
-		panic("solver died: " + err.Error())
+		if !killed {
+			panic("solver died: " + err.Error())
+		}
+		s.restart()
+		if extra != nil {
+			// restore the push level the caller expects to pop
+			io.WriteString(s.in, "(push)\n")
+		}
+		line = "unknown-killed-after-hard-timeout"
 	}
 	res := strings.TrimSpace(line)
 	if strings.HasPrefix(res, "(error") {
@@ -100,6 +148,10 @@ func (s *Solver) Check(extra *Term) string {
 		res = "unknown:" + res
 	}
 	s.lastPushed = extra != nil
+	s.fbModel = nil
+	if strings.HasPrefix(res, "unknown") {
+		res = s.fallback(extra, res)
+	}
 	s.nQuery++
 	switch res {
 	case "sat":
@@ -120,8 +172,67 @@ func (s *Solver) Check(extra *Term) string {
 	return res
 }
 
+// fallback re-asks the current query to the second solver (one-shot process).
+func (s *Solver) fallback(extra *Term, first string) string {
+	s.nFallback++
+	var sb strings.Builder
+	sb.WriteString("(set-logic ALL)\n")
+	sb.WriteString(s.base.String())
+	if extra != nil {
+		// definitions needed by extra are already in base (emitted before the push)
+		sb.WriteString("(assert " + s.ctx.ref(extra) + ")\n")
+	}
+	sb.WriteString("(check-sat)\n")
+	if len(s.ctx.vars) > 0 {
+		names := make([]string, len(s.ctx.vars))
+		for i, v := range s.ctx.vars {
+			names[i] = v.Name
+		}
+		sb.WriteString("(get-value (" + strings.Join(names, " ") + "))\n")
+	}
+	f, err := os.CreateTemp("", "verifq*.smt2")
+	if err != nil {
+		return first
+	}
+	if os.Getenv("VERIF_KEEP_FALLBACK") == "" {
+		defer os.Remove(f.Name())
+	}
+	f.WriteString(sb.String())
+	f.Close()
+	out, _ := exec.Command(fallbackCmd[0], append(fallbackCmd[1:], f.Name())...).Output()
+	txt := string(out)
+	line := ""
+	for _, l := range strings.Split(txt, "\n") {
+		l = strings.TrimSpace(l)
+		if l == "sat" || l == "unsat" || l == "unknown" {
+			line = l
+			break
+		}
+	}
+	if s.log != nil {
+		fmt.Fprintf(s.log, "; fallback %s => %s\n", strings.Join(fallbackCmd, " "), line)
+	}
+	switch line {
+	case "unsat":
+		if strings.Contains(txt, "(error") && !strings.Contains(txt, "cannot get value") && !strings.Contains(txt, "Cannot get") {
+			return first
+		}
+		return "unsat"
+	case "sat":
+		if strings.Contains(txt, "(error") {
+			return first
+		}
+		s.fbModel = s.parseModel(txt)
+		return "sat"
+	}
+	return first
+}
+
 // Model must be called right after a sat Check (before Pop).
 func (s *Solver) Model() map[string]uint64 {
+	if s.fbModel != nil {
+		return s.fbModel
+	}
 	m := map[string]uint64{}
 	if len(s.ctx.vars) == 0 {
 		return m
@@ -148,6 +259,11 @@ func (s *Solver) Model() map[string]uint64 {
 	if strings.HasPrefix(strings.TrimSpace(txt), "(error") {
 		panic("solver get-value: " + txt)
 	}
+	return s.parseModel(txt)
+}
+
+func (s *Solver) parseModel(txt string) map[string]uint64 {
+	m := map[string]uint64{}
 	// parse (name value) pairs; values are #x.., #b.., true, false or (_ bvN W)
 	for _, v := range s.ctx.vars {
 		i := strings.Index(txt, "("+v.Name+" ")
